@@ -487,6 +487,15 @@ impl<'a> WriteTxn<'a> {
         self.inner.end_statement();
     }
 
+    /// Read view for the next statement of this transaction: the committed state plus
+    /// everything written in this transaction up to the last statement boundary
+    /// ([`WriteTxn::end_statement`]). Execute the statements of a multi-statement
+    /// transaction against this view rather than against [`Db::snapshot`], which only
+    /// shows committed data.
+    pub fn snapshot(&mut self) -> DbSnapshot {
+        DbSnapshot(self.inner.snapshot())
+    }
+
     /// Discards everything written since the last statement boundary. Call this when a
     /// statement fails inside a transaction that may still be committed, so that the failed
     /// statement has no effect.
